@@ -799,6 +799,13 @@ LAYERED_HAND = [
     ('hand/blocks', '{[#B1][#B2][#B1]}.{#B1=[<][#PEO][#PEO][>],#B2=[<][#PE][#PE][>]}.{#PEO=[>]COC[<],#PE=[>]CC[<]}',
      '{[#PEO]|2[#PE]|2[#PEO]|2}.{#PEO=[>]COC[<],#PE=[>]CC[<]}', True),
     ('hand/linring', '{[#R]}.{#R=[#X]=[#X]}.{#X=[$]CCC[$]}', '{[#X]=[#X]}.{#X=[$]CCC[$]}', True),
+    # intermediate fragments joined by several `<` / `>` links of DIFFERENT order (a plain [>] must not pair with =[<])
+    ('hand/mixed-order-links', '{[#L]=[#R]}.{#L=[#a][>][#b]=[>],#R=[<]=[#c][#d][<]}.'
+     '{#a=[$A]O[$C],#b=[$A]C[>]C[>],#c=[<]C[$B]C[<],#d=[$C]N[$B]}',
+     '{[#a]1[#b]=[#c][#d]1}.{#a=[$A]O[$C],#b=[$A]C[>]C[>],#c=[<]C[$B]C[<],#d=[$C]N[$B]}', True),
+    ('hand/labelled-ring-of-units', '{[#U]1[#V][#W]1}.{#U=[<c][#p][#q][>a],#V=[<a][#r][#s][>b],#W=[<b][#t][#u][>c]}.'
+     '{#p=[$1]C[$6],#q=[$1]C[$2],#r=[$2]C[$3],#s=[$3]C[$4],#t=[$4]C[$5],#u=[$5]C[$6]}',
+     '{[#p]1[#q][#r][#s][#t][#u]1}.{#p=[$1]C[$6],#q=[$1]C[$2],#r=[$2]C[$3],#s=[$3]C[$4],#t=[$4]C[$5],#u=[$5]C[$6]}', True),
 ]
 
 
